@@ -123,7 +123,8 @@ func Run(c *Case, cfg Config, stats *Stats) (*Divergence, Outcome) {
 		}
 		if r.altShape && st.Res.St == "ok" {
 			// compare the elements of the alternative-shaped result by row-major sequence, then stop
-			if d := w.compareAlt(i, st, r); d != nil {
+			// (only when this is the last step: the final heap is the heap right after this step)
+			if d := w.compareAlt(i, st, r); last && d != nil {
 				stats.Diverged++
 				return d, Diverged
 			}
@@ -466,8 +467,12 @@ func rawArgs(st *Step) []json.RawMessage { return decodeArr(st.Op.A) }
 func Applicable(c *Case, d *vals.DT) bool {
 	for i := range c.Steps {
 		switch c.Steps[i].Op.K {
-		case "UnsafeUn", "UnsafeBinK":
+		case "UnsafeUn", "UnsafeBinK", "UnsafeBinT":
 			if !d.Numeric() {
+				return false
+			}
+		case "Export":
+			if strings.Contains(string(c.Steps[i].Op.A), "mat64") && !(d.Numeric() && d.Class != vals.CComplex) {
 				return false
 			}
 		}
